@@ -510,7 +510,24 @@ func (h *hookFS) MkdirAll(dir string, perm os.FileMode) error {
 
 func (h *hookFS) Create(name string, c vfs.DiskWriteCategory) (vfs.File, error) {
 	h.call("create", name)
-	return h.FS.Create(name, c)
+	f, err := h.FS.Create(name, c)
+	if err == nil && strings.HasPrefix(h.FS.PathBase(name), "MANIFEST-") {
+		// version edits are written while the committing operation is between
+		// "prepared" and "published": a hook point for racing operations
+		return &hookManifest{File: f, h: h, name: name}, nil
+	}
+	return f, err
+}
+
+type hookManifest struct {
+	vfs.File
+	h    *hookFS
+	name string
+}
+
+func (m *hookManifest) Write(p []byte) (int, error) {
+	m.h.call("manifest-write", m.name)
+	return m.File.Write(p)
 }
 
 func (h *hookFS) Link(oldname, newname string) error {
@@ -1453,13 +1470,16 @@ func (r *Runner) step(s Step) error {
 		r.begin(n)
 		defer r.abort()
 		wasDurable := r.Durable == len(r.Versions)-1
+		race := r.startEFOSRace(s)
 		if err := r.DB.Excise(ctx, pebble.KeyRange{Start: []byte(s.A), End: []byte(s.B)}); err != nil {
+			race.abandon()
 			return fmt.Errorf("unexpected error: %v", err)
 		}
 		r.push(n, wasDurable)
 		r.sdNote(Op{K: "delrange", A: s.A, B: s.B})
 		r.noteExcise(s.A, s.B)
 		r.L["excise"] = true
+		return race.resolve("Excise")
 	case "snap":
 		if r.snaps[s.ID] != nil {
 			return nil
@@ -1785,7 +1805,7 @@ func (r *Runner) scan(rd *reader, o IterOpts, reverse bool) error {
 	return nil
 }
 
-func (r *Runner) stepIngest(ctx context.Context, s Step) error {
+func (r *Runner) stepIngest(ctx context.Context, s Step) (err error) {
 	excise := s.K == "ingestexcise"
 	if excise && (r.fmv() < pebble.FormatVirtualSSTables || s.A == "" || cmpKey(s.A, s.B) >= 0) {
 		return nil
@@ -1819,15 +1839,22 @@ func (r *Runner) stepIngest(ctx context.Context, s Step) error {
 	r.begin(next)
 	defer r.abort()
 	wasDurable := r.Durable == len(r.Versions)-1
-	var err error
+	var race *efosRace
 	if excise {
+		race = r.startEFOSRace(s)
 		_, err = r.DB.IngestAndExcise(ctx, paths, nil, nil, pebble.KeyRange{Start: []byte(s.A), End: []byte(s.B)})
 	} else {
 		err = r.DB.Ingest(ctx, paths)
 	}
 	if err != nil {
+		race.abandon()
 		return fmt.Errorf("unexpected error: %v", err)
 	}
+	defer func() {
+		if rerr := race.resolve("IngestAndExcise"); rerr != nil && err == nil {
+			err = rerr
+		}
+	}()
 	if excise {
 		r.sdNote(Op{K: "delrange", A: s.A, B: s.B})
 		r.noteExcise(s.A, s.B)
